@@ -35,7 +35,7 @@ fn run_line(line: &str) -> String {
     }
     let (op, args) = (parts[0], &parts[1..]);
     let res = panic::catch_unwind(|| {
-        ops_lex::run(op, args).or_else(|| ops_doc::run(op, args)).or_else(|| ops_codec::run(op, args)).or_else(|| ops_net::run(op, args)).or_else(|| ops_parse::run(op, args)).or_else(|| ops_inc::run(op, args)).or_else(|| ops_sem::run(op, args)).or_else(|| ops_feat::run(op, args))
+        ops_lex::run(op, args).or_else(|| ops_doc::run(op, args)).or_else(|| ops_codec::run(op, args)).or_else(|| ops_net::run(op, args)).or_else(|| ops_parse::run(op, args)).or_else(|| ops_inc::run(op, args)).or_else(|| ops_sem::run(op, args)).or_else(|| ops_feat::run(op, args)).or_else(|| ops_feat::run_fmt_props(op, args))
     });
     match res {
         Ok(Some(s)) => s,
@@ -73,6 +73,15 @@ fn main() {
                 "C01" => ops_inc::gen_c01(&mut rng, if thorough { 30000 } else { 2500 }, &mut out),
                 "C02" => ops_inc::gen_c02(&mut rng, if thorough { 30000 } else { 2500 }, &mut out),
                 "C03" => ops_sem::gen_c03(&mut rng, if thorough { 8000 } else { 600 }, &mut out),
+                "C09" => ops_feat::gen_fmt(&mut rng, if thorough { 6000 } else { 500 }, "C09", &mut out),
+                "C10" => ops_feat::gen_fmt(&mut rng, if thorough { 6000 } else { 500 }, "C10", &mut out),
+                "C11" => ops_feat::gen_fmt(&mut rng, if thorough { 4000 } else { 350 }, "C11", &mut out),
+                "C12" => ops_feat::gen_feature_cases(&mut rng, if thorough { 3000 } else { 250 }, &["GOTO"], 25, &mut out),
+                "C13" => ops_feat::gen_feature_cases(&mut rng, if thorough { 3000 } else { 250 }, &["REFS", "REN", "PREP"], 25, &mut out),
+                "C14" => ops_feat::gen_feature_cases(&mut rng, if thorough { 3000 } else { 250 }, &["HOV", "SIG"], 25, &mut out),
+                "C15" => ops_feat::gen_feature_cases(&mut rng, if thorough { 6000 } else { 500 }, &["SEM"], 40, &mut out),
+                "C17" => ops_feat::gen_feature_cases(&mut rng, if thorough { 8000 } else { 700 }, &["FOLD"], 40, &mut out),
+                "C16" => ops_feat::gen_c16(&mut rng, if thorough { 3000 } else { 250 }, &mut out),
                 "FEAT" => ops_feat::gen_feature_cases(&mut rng, if thorough { 3000 } else { 300 }, &["GOTO", "PREP", "REFS", "REN", "HOV", "SIG", "FOLD", "SEM", "COMP", "FMT"], 25, &mut out),
                 "C04" => ops_parse::gen_c04(&mut rng, if thorough { 6000 } else { 500 }, &mut out),
                 "C05" => ops_parse::gen_c05(&mut rng, if thorough { 20000 } else { 1500 }, &mut out),
